@@ -137,7 +137,10 @@ func runGemm(t *vlib.T, g *vlib.G, c gemmCase) {
 	// parallel path legitimately differ in the sign of a zero when k == 0);
 	// bit oracle: the same call under the default schedule with GOMAXPROCS=1.
 	vrt.Procs = 1
-	vsched.Run(body, vsched.Options{})
+	if x := vsched.Run(body, vsched.Options{}); x.Outcome != "ok" {
+		t.Failf("the default schedule with GOMAXPROCS=1 ends in %s", x.Outcome)
+		return
+	}
 	vrt.Procs = c.procs
 	if c.single {
 		for i := range want {
